@@ -85,7 +85,7 @@ struct DtxSim {
     double frame_rms = sqrt(e2 / (double)std::max<size_t>(1, pcm.size()));
     // LOUD = unmistakable activity: an AC source family at >= -26 dBFS and within 6 dB of the loudest frame so far (the detectors
     // judge activity relative to the running peak level, and a DC offset is no activity at all)
-    bool ac_family = S.src.fam == SRC_TONES || S.src.fam == SRC_SWEEP || S.src.fam == SRC_VOICED || S.src.fam == SRC_NOISE || S.src.fam == SRC_SQUARE || S.src.fam == SRC_MUSIC || S.src.fam == SRC_STEREO || S.src.fam == SRC_STEADYVOICED || S.src.fam == SRC_ANTIPHASE;
+    bool ac_family = S.src.fam == SRC_TONES || S.src.fam == SRC_SWEEP || S.src.fam == SRC_VOICED || S.src.fam == SRC_NOISE || S.src.fam == SRC_SQUARE || S.src.fam == SRC_MUSIC || S.src.fam == SRC_STEREO || S.src.fam == SRC_STEADYVOICED || S.src.fam == SRC_ANTIPHASE || S.src.fam == SRC_ONSETS;
     if (ac_family && frame_rms > max_rms) max_rms = frame_rms;
     bool loud = !silent && ac_family && frame_rms >= 0.05 && frame_rms >= 0.5 * max_rms;
     // ---- ground truth bookkeeping
@@ -139,10 +139,18 @@ struct DtxSim {
     bool onset_was_seen = onset_seen;
     if (tiny && in_silence && silent) onset_seen = true;   // whatever made it tiny: the onset clause only speaks about the first one
     // ---- O5: DTX disabled => no packet of two bytes or fewer (bitrate and buffer allow well over three bytes)
-    if (!m_dtx && tiny && bytes_per_frame >= 8 && max_bytes >= 100)
-      REPORT(run, prop, "tiny_packet_with_dtx_disabled", "ret=%d frame_ms=%.1f bitrate=%d toc=%02x t=%.0fms", ret, d48 / 48.0, m_bitrate, pkt[0], t0 / 48.0);
+    long eff_rate = m_bitrate == OPUS_AUTO || m_bitrate == OPUS_BITRATE_MAX ? 1000000 : std::max(500, m_bitrate);
+    bool toc_only_regime = d48 > 960 && (eff_rate < 2400 || max_bytes * (48000.0 / d48) < 300);   // long frames, low budget: every packet is TOC-only, DTX or not
+    // (stated for "at least three bytes per frame"; for frames longer than 20 ms the library deliberately asks for more - 2400 bit/s and
+    //  300 buffer bytes per second - before it codes anything but TOC-only packets: a known finding with exactly that signature)
+    if (!m_dtx && tiny && bytes_per_frame >= 3.0 - 1e-9 && max_bytes >= 3) {
+      long eff = m_bitrate == OPUS_AUTO || m_bitrate == OPUS_BITRATE_MAX ? 1000000 : std::max(500, m_bitrate);
+      double frame_rate = 48000.0 / d48;
+      bool long_frame_rule = d48 > 960 && (eff < 2400 || max_bytes * frame_rate < 300);
+      REPORT(run, prop, long_frame_rule ? "tiny_packet_with_dtx_disabled_long_frame_below_2400bps" : "tiny_packet_with_dtx_disabled", "ret=%d frame_ms=%.1f bitrate=%d (%.2f bytes/frame) max_bytes=%d toc=%02x t=%.0fms", ret, d48 / 48.0, m_bitrate, bytes_per_frame, max_bytes, pkt[0], t0 / 48.0);
+    }
     if (!m_dtx && !tiny) run.count("nodtx_checked");
-    if (m_dtx && bytes_per_frame >= 8) {
+    if (m_dtx && bytes_per_frame >= 8 && !toc_only_regime) {
       if (tiny) {
         run.count("dtx_packets");
         // ---- O3: the in-DTX query is true on every DTX packet
@@ -183,6 +191,24 @@ struct DtxSim {
       }
     } else { tiny_run48 = 0; tiny_run_pkts = 0; }
 
+    // ---- O4 per 20 ms sub-frame of a longer packet: with the generalized DTX the decision is taken per coded frame, and a coded frame whose
+    // samples are unmistakably active (same LOUD definition, applied to its own slice of the input) is never one of the dropped ones
+    if (m_dtx && analysis_cfg && bytes_per_frame >= 8 && !toc_only_regime && !tiny && d48 > 960) {
+      const unsigned char *fr[48]; opus_int16 fsz[48]; unsigned char toc_; int po = 0;
+      int nfp = opus_packet_parse(pkt.data(), (opus_int32)pkt.size(), &toc_, fr, fsz, &po);
+      bool fam_ok = S.src.fam == SRC_TONES || S.src.fam == SRC_MUSIC || S.src.fam == SRC_NOISE || S.src.fam == SRC_SQUARE || S.src.fam == SRC_SWEEP || S.src.fam == SRC_STEADYVOICED || S.src.fam == SRC_ONSETS;
+      if (nfp > 1 && frame % nfp == 0 && fam_ok) {
+        size_t per = (size_t)(frame / nfp) * (size_t)L.ch;
+        for (int f = 0; f < nfp; f++) {
+          double e = 0; for (size_t i = (size_t)f * per; i < (size_t)(f + 1) * per; i++) e += (double)pcm[i] * pcm[i];
+          double srms = sqrt(e / (double)per);
+          bool sloud = srms >= 0.05 && srms >= 0.5 * max_rms;
+          if (!sloud) continue;
+          run.count("subframe_resume_checked");
+          if (fsz[f] == 0) REPORT(run, prop, "active_subframe_of_multiframe_packet_dropped", "sub-frame %d of %d (%d bytes) of the %.0f ms packet at t=%.0fms has rms %.3f (loudest so far %.3f), family %s cplx=%d fs=%d ch=%d", f, nfp, (int)fsz[f], d48 / 48.0, t0 / 48.0, srms, max_rms, kSrcName[S.src.fam], m_complexity, L.fs, L.ch);
+        }
+      }
+    }
     // ---- receivers
     if (have_dec) {
       int out = (int)(d48 * G.fs / 48000);
@@ -198,7 +224,7 @@ struct DtxSim {
       // near-silence in the gap: digital silence preceded by >= 1 s of it
       // (a lost packet hands the gap to concealment of whatever came before - C09's subject; the clock restarts after a loss)
       if (lost) last_loss48 = t0;
-      if (m_dtx && bytes_per_frame >= 8 && in_silence && silent && silence_start48 >= 0 && t0 >= std::max(std::max(silence_start48, last_loss48), last_ctl48) + 1000 * MS && silence_start48 > 0) {
+      if (m_dtx && bytes_per_frame >= 8 && !toc_only_regime && in_silence && silent && silence_start48 >= 0 && t0 >= std::max(std::max(silence_start48, last_loss48), last_ctl48) + 1000 * MS && silence_start48 > 0) {
         gap_eG += energy(pg); gap_eP += energy(pp); gap_n += (long)pg.size();
       }
       // normal audio afterwards: from 500 ms after a loud burst resumed, for as long as it lasts
@@ -276,6 +302,8 @@ Plan gen(uint64_t seed, int tier) {
   if (r.chance(0.2)) p.ops.push_back(mkop("CTL", {OPUS_SET_INBAND_FEC_REQUEST, r.range(0, 2)}));
   if (r.chance(0.2)) p.ops.push_back(mkop("CTL", {OPUS_SET_BANDWIDTH_REQUEST, r.pick({1101, 1102, 1103, 1104, 1105})}));
   int fidx = r.weighted({1, 1, 3, 8, 3, 3, 1, 1, 1});
+  // the smallest budgets: at, just above and just below three bytes per frame of the chosen duration, and a few bytes more
+  if (r.chance(0.12)) p.ops.push_back(mkop("CTL", {OPUS_SET_BITRATE_REQUEST, (int)(r.pick({3, 3, 3, 4, 5, 7}) * 8 * 48000 / kFrames48[fidx]) + (int)r.pick({-1, 0, 0, 0, 1})}));
   int64_t total48 = (int64_t)(tier ? r.range(3, 14) : r.range(2, 6)) * 48000, t = 0;
   bool burst = r.chance(0.8);
   double pctl = r.pick({0.0, 0.0, 0.01, 0.03}), plose = r.pick({0.0, 0.0, 0.3});
@@ -286,6 +314,7 @@ Plan gen(uint64_t seed, int tier) {
     if (burst) {
       int fam = r.pick({(int)SRC_TONES, (int)SRC_VOICED, (int)SRC_MUSIC, (int)SRC_NOISE, (int)SRC_SQUARE, (int)SRC_SWEEP, (int)SRC_VOICED, (int)SRC_MUSIC});
       if (ch == 2 && r.chance(0.12)) fam = r.chance(0.5) ? (int)SRC_ANTIPHASE : (int)SRC_STEADYVOICED;
+      if (r.chance(0.12)) fam = (int)SRC_ONSETS;   // activity that stops and resumes abruptly at every position inside a packet
       int64_t amp = r.pick({100, 300, 500, 900});
       if (r.chance(0.15)) amp = r.pick({1, 10, 30});
       last_amp = amp;
